@@ -68,3 +68,16 @@ Proof.
   destruct (gen_new_encodes (Cow_Borrowed s)) as (t1 & H1 & E1). destruct (gen_new_encodes (Cow_Owned s)) as (t2 & H2 & E2).
   exists t1, t1, t2. cbn [cow_text] in E1, E2. repeat split; assumption.
 Qed.
+
+(* ---- Display: what `to_string()` / `{}` print ----------------------------------------------------------------------------
+   `fn fmt(&self, f)` is translated to the text it writes.  A pointer prints its (encoded) text unchanged; a token prints its
+   DECODED text; an index prints the decimal spelling of the number, or "-". *)
+Theorem gen_display_pointer (p : str) : gen_Pointer_display p = Ret p /\ gen_PointerBuf_display p = Ret p.
+Proof. split; reflexivity. Qed.
+
+Theorem gen_display_token (t : Token) :
+  gen_Token_display t = Ret (decoded (cow_text (Token_inner t))).
+Proof.
+  unfold gen_Token_display. rewrite gen_decoded_eq. cbn [Token_inner]. unfold decoded.
+  destruct (decoded_cow (cow_text (Token_inner t))) as [al tx]. cbn [snd]. destruct al; reflexivity.
+Qed.
